@@ -19,7 +19,7 @@
    {'file': 'compat/libc/stdlib/atol.c', 'func': 'atol', 'ghost': 'spec_ato_digit_step(ATO_BITS, KF_C11_atol_min);', 'at': 'body-begin', 'loop': 1},
  ],
  'kf': ['C11_atol_min'],
- 'witness': {'unwind': 9},
+ 'witness': {'unwind': 16, 'defines': ['VC_WIT_MAXOBJ=13']}, 'fallback': 'ghost-free',
  'assumptions': ['ato*: the text has g_ws (arbitrary) leading white-space characters followed by a character that is not white space, all inside the object; every further character the ISO automaton has to inspect lies inside the object (SPEC_NEED)',
                  'ato*: the value of the text is representable in the result type (ISO 7.22.1.2p1: otherwise undefined)'],
 } @*/
@@ -37,7 +37,7 @@ void harness(void)
 {
     WIT(size_t, n);
     WIT(size_t, ws);
-    WIT_ARR(uchar, content, 6);
+    WIT_ARR(uchar, content, 13);
     WIT(size_t, k);
     __CPROVER_assume(n >= 1 && n <= VC_MAXOBJ);
     uchar *t = NEW_OBJ(n);
@@ -49,8 +49,21 @@ void harness(void)
 
     long r = vc_atol((const char *)t);
 
+#if !VC_FALLBACK
     __CPROVER_assert(g_i < n && spec_strto_stopped(), "reference machine stands on the first character that is not a decimal digit");
     __CPROVER_assert(KF_C11_atol_min == 2 || (long long)r == spec_strto_signed_result(ATO_BITS), "ISO 7.22.1.2: atol(text) == strtol(text, NULL, 10)");
+#endif
+#ifdef WITNESS_MODE
+    {   /* direct reference over the small concrete text (independent of the injected ghost automaton): ISO strtol(text, NULL, 10) */
+        size_t q = 0; int neg = 0; unsigned __int128 v = 0;
+        while (q < n && spec_isspace(t[q])) q++;
+        if (q < n && (t[q] == '-' || t[q] == '+')) { neg = t[q] == '-'; q++; }
+        while (q < n && t[q] >= '0' && t[q] <= '9') { v = v * 10 + (unsigned)(t[q] - '0'); q++; }
+        unsigned __int128 lim = ((unsigned __int128)1 << (64 - 1)) - (neg ? 0 : 1);
+        if (q < n && v <= lim)      /* representable, and the text ends inside the object */
+            __CPROVER_assert((__int128)r == (neg ? -(__int128)v : (__int128)v), "result == ISO strtol(text, NULL, 10) (direct reference)");
+    }
+#endif
     __CPROVER_assert(!(k < n) || t[k] == at_k, "the text is not modified");
     CANARY("atol harness end reachable");
 }
